@@ -419,7 +419,7 @@ func c10RunRaw(raw json.RawMessage) *vstat.Failure {
 }
 
 func TestC10(t *testing.T) {
-	st := vstat.New("C10", "stores of 1-4 metrics with limit in {0..5}, 0-8 data each with last-update ages from a small set (ties common, some in the future), expiry marks in {none, 1ns, 1h, 24h}, some data created earlier and updated later (with the value they already hold); Gc(); for API-built stores 0-2 further rounds of updates (same or new value, backdated or fresh) each followed by another Gc(); non-trivial = a metric over its limit that also holds an expiry-marked datum, or ties in time at the limit boundary; distinct by the whole store")
+	st := vstat.New("C10", "stores of 1-4 metrics with limit in {0..5}, 0-8 data each (now and then one metric with 40-130 data, most of them due to expire) with last-update ages from a small set (ties common, some in the future), expiry marks in {none, 1ns, 1h, 24h}, some data created earlier and updated later (with the value they already hold); Gc(); for API-built stores 0-2 further rounds of updates (same or new value, backdated or fresh) each followed by another Gc(); non-trivial = a metric over its limit that also holds an expiry-marked datum, or ties in time at the limit boundary; distinct by the whole store")
 	st.Assumptions = []string{"GC instant T lies in [t0,t1] around the call; ages are >= 10 s away from every expiry boundary", "any tie-break among equally old data is accepted"}
 	st.Run(t, c10RunRaw, func() {
 		ages := []int64{-100, 0, 10, 10, 100, 3500, 3700, 3700, 7200, 86000, 86800, 200000}
@@ -440,6 +440,22 @@ func TestC10(t *testing.T) {
 						Bumped: rapid.IntRange(0, 3).Draw(rt, "bumped") == 0,
 						Remark: rapid.IntRange(0, 3).Draw(rt, "remark") == 0,
 					})
+				}
+				if i == 0 && rapid.IntRange(0, 5).Draw(rt, "big") == 0 {
+					// a metric that has grown large (sessions, request ids), most of it
+					// due to expire at this pass
+					cm.Limit = 0
+					nbig := rapid.IntRange(40, 130).Draw(rt, "nbig")
+					cm.Data = nil
+					for j := 0; j < nbig; j++ {
+						d := c10Datum{AgeS: 7200, ExpNs: int64(time.Hour), Val: int64(j % 5)}
+						if j%rapid.IntRange(5, 12).Draw(rt, "keepevery") == 0 {
+							d.AgeS = 10
+						}
+						cm.Data = append(cm.Data, d)
+					}
+					nd = nbig
+					st.Class("large-metric-mostly-expired")
 				}
 				c.Metrics = append(c.Metrics, cm)
 				if cm.Limit > 0 && nd > cm.Limit {
